@@ -234,6 +234,7 @@ func pollute() (clean bool, same bool) {
 			client.SetFileReader(io.NopCloser(bytes.NewReader([]byte("leak"))))))
 	}
 	saveCT := ctExpected
+	respMal = respMal[:0]
 	respCookies = append(respCookies[:0], mkCookie("leakset", "1", "/", "n", time.Now()))
 	resp, err := r.Post("http://leak.test/leak/:missing?lq=1")
 	for _, c := range respCookies {
